@@ -844,4 +844,40 @@ Lemma source_layout_pinned_lemma :
   (VG_ATTR_SET, VSET_VERSION, VSET_NEW_VERSION) = (1, 3, 4) /\
   Z.of_nat (List.length HDF_INTERNAL_VGS) = HDF_NUM_INTERNAL_VGS.
 Proof. repeat split; reflexivity. Qed.
+(** every function with external linkage of vgp.c / vg.c / vhi.c is accounted for: called by the harness drive_vg.c
+    (checks/C08.py verifies the calls are there), reached through one of those, or a Vdata-record routine that
+    belongs to property C07 / a helper without observable behaviour *)
+Definition api_driven : list string :=
+  ["Vinitialize"; "Vfinish"; "Vattach"; "Vdetach"; "Vinsert"; "Vflocate"; "Vinqtagref"; "Vdeletetagref"; "Vntagrefs";
+   "Vnrefs"; "Vgettagrefs"; "Vgettagref"; "VQuerytag"; "VQueryref"; "Vaddtagref"; "Ventries"; "Vsetname"; "Vsetclass";
+   "Visvg"; "Visvs"; "Vgetid"; "Vgetnext"; "Vgetnamelen"; "Vgetclassnamelen"; "Vgetname"; "Vgetclass"; "Vinquire";
+   "Vopen"; "Vclose"; "Vdelete"; "Vgisinternal"; "Vgetvgroups"; "VSlone"; "Vlone"; "Vfind"; "VSfind"; "Vfindclass";
+   "VSfindclass"; "VSofclass"; "VSgetvdatas"; "VHstoredata"; "VHmakegroup"; "VSsetname"; "VSsetclass"]%string.
+Definition api_indirect : list string :=
+  ["VIget_vgroup_node"; "VIrelease_vgroup_node"; "VIget_vginstance_node"; "VIrelease_vginstance_node"; "Get_vfile";
+   "vcompare"; "vdestroynode"; "vfdestroynode"; "vginst"; "vpackvg"; "VPgetinfo"; "vinsertpair"; "Visinternal";
+   "VSisinternal"; "VSIgetvdatas"; "vscheckclass"; "VHstoredatam"; "VSfexist"; "VPshutdown"]%string.
+Definition api_elsewhere : list string :=
+  ["VSelts"; "VSgetinterlace"; "VSsetinterlace"; "VSgetfields"; "VSsizeof"; "VSdump"; "VSgetname"; "VSgetclass";
+   "VSinquire"; "VSsetblocksize"; "VSsetnumblocks"; "VSgetblockinfo";          (* Vdata records: C07 *)
+   "vexistvg"; "vprint"; "Vsetzap"]%string.                                     (* lookup helper, debug print, no-op *)
+Lemma api_accounted_lemma :
+  forallb (fun f => existsb (String.eqb f) (api_driven ++ api_indirect ++ api_elsewhere)) vg_api_functions = true.
+Proof. vm_compute. reflexivity. Qed.
+
+(** loop bounds and loop bodies of the enumeration / construction routines the model follows *)
+Lemma source_loops_pinned_lemma :
+  vsigetvdatas_count = "int32n_elements=Vntagrefs(id);"%string /\
+  vgetvgroups_count = "int32n_elements=Vntagrefs(id);"%string /\
+  vhmakegroup_loop =
+    "for(i=0;i<n;i++){if(Vaddtagref(vg,tagarray[i],refarray[i])==FAIL)HGOTO_ERROR(DFE_CANTADDELEM,FAIL);}ref=VQueryref(vg);"%string /\
+  vgettagrefs_clamp = "if(n>(int32)vg->nvelt)n=(int32)vg->nvelt;"%string /\
+  vattach_shared_mode = "v->vg->access=MAX(v->vg->access,acc_mode);v->nattach++;"%string /\
+  vlone_member_loop = "for(i=0;i<Vntagrefs(vkey);i++){Vgettagref(vkey,i,&vstag,&id);"%string /\
+  vslone_member_loop = "for(i=0;i<Vntagrefs(vkey);i++){Vgettagref(vkey,i,&vstag,&vsid);"%string /\
+  vinsert_dup_scan =
+    "for(u=0;u<(unsigned)vg->nvelt;u++){if((vg->ref[u]==newref)&&(vg->tag[u]==newtag))HGOTO_ERROR(DFE_DUPDD,FAIL);}"%string /\
+  Z.of_nat (List.length HDF_INTERNAL_VDS) = HDF_NUM_INTERNAL_VDS /\
+  List.length _HDF_CHK_TBL_CLASS = 13%nat.
+Proof. repeat split; reflexivity. Qed.
 End Layout.
